@@ -226,6 +226,24 @@ Theorem C03_peer_gone_refuted :
 Proof. exact peer_gone_refuted. Qed.
 Print Assumptions C03_peer_gone_refuted.
 
+(* the single pending slot (pending_le_connection) is given up only on a path that emits, or has
+   queued the callback that emits, the LE Connection Complete of that request: in every step of the
+   model, from any state.  In particular an advertisement of a peer that is still connected leaves the
+   request pending ("Connection for <peer> already exists?"), it does not discard it. *)
+Theorem C03_pending_slot_cleared_only_with_completion : forall s o s' out a,
+  p_step s o = (s', out) -> p_pend_le s = Some a -> p_pend_le s' <> Some a ->
+  (exists st h, In (LeConn st h a) out) \/ In (a, DeferredConnFail) (p_from s').
+Proof. exact pend_cleared_emits. Qed.
+Print Assumptions C03_pending_slot_cleared_only_with_completion.
+
+Example C03_reconnect_while_connected :
+  groups_obs [2; 3] [[Cmd (LeCreate false 2)]; [Adv 2]; [Cmd (LeCreate true 2)]; [Adv 2]; [Cmd (Disconnect 1)];
+                     [Adv 2]]
+  = ([[0; 8205; 0]; [2; 0; 1; 2]; [0; 8259; 0]; [0; 1030; 0]; [3; 1]; [2; 0; 1; 2]], [], true, true) /\
+  groups_obs [2; 3] [[Cmd (LeCreate true 2)]; [Adv 2]; [Cmd (LeCreate false 2)]; [Adv 2]; [Cmd LeCancel]; [Cmd LeCancel]]
+  = ([[0; 8259; 0]; [2; 0; 1; 2]; [0; 8205; 0]; [1; 8206; 0]; [2; 2; 0; 2]; [1; 8206; 12]], [], true, true).
+Proof. exact reconnect_while_connected. Qed.
+
 (* ---- arbitrary interleavings of commands, peer actions and single PDU deliveries (commands
    issued while PDUs are in flight, a peer disconnecting while a request is on its way, stale
    responses, ...), by complete evaluation over a bounded scope: from the initial state and from
